@@ -1,7 +1,7 @@
 (* C20 — property theorems.  Statements only: each is closed by [exact] of a lemma proved elsewhere.
    [E : env] stands for the expression parser/printer and the evaluation of transforms (C02/C03), arbitrary here.
    [put_ports] is the restore with the two proposed repairs (fixes/C20-*.diff); [put_ports_gen V] is either version. *)
-From QT Require Import C20.Lemmas C20.FlagsThm C20.PortsThm C20.OtherThm C20.AcceptThm C20.Example.
+From QT Require Import C20.Lemmas C20.FlagsThm C20.PortsThm C20.OtherThm C20.AcceptThm C20.Example C20.Shape Gen.C20Gen C20.GenOk.
 Open Scope string_scope.
 Open Scope list_scope.
 Open Scope Z_scope.
@@ -79,6 +79,16 @@ Theorem C20_peripherals_roundtrip : forall known auto st dyn ps2 ps2',
 Proof. exact peripherals_roundtrip. Qed.
 Print Assumptions C20_peripherals_roundtrip.
 
+(* the source text of the restore functions has the shape the model of the switches assumes: in put_ports and put_slave_devices
+   nothing stands between switching polling / event delivery off and the `try` whose `finally` switches them on (so
+   C20_flags_restored / C20_slaves_flags_restored speak about every path of the real functions); put_device and put_peripherals do
+   not touch the switches.  Gen/C20Gen.v is regenerated from /repo's working tree on every run. *)
+Theorem C20_switches_guarded_in_source :
+  switches_guarded put_ports_shape = true /\ switches_guarded put_slave_devices_shape = true
+  /\ switches_untouched put_device_shape = true /\ switches_untouched put_peripherals_shape = true.
+Proof. exact restore_shapes_ok. Qed.
+Print Assumptions C20_switches_guarded_in_source.
+
 (* ---- acceptance: an unaltered backup is never refused, so the round trip holds without the proviso "if accepted" ----
    [acceptable r E s1 s2] is a boolean test: every attribute value of the source lies in its domain, transforms refer to their
    own port, virtual ports have definitions POST /ports accepts, [r] is a topological order of the source's dependency graph
@@ -117,6 +127,7 @@ Theorem C20_peripherals_roundtrip_total : forall known auto st dyn ps2,
   (forall e, In e dyn -> is_static e = false /\ peripheral_json auto e = e) ->
   (forall e, In e dyn -> driver_known known e = true) ->
   ids_distinct (st ++ dyn) = true ->
+  forallb (fun e => is_none (invalid_peripheral e)) (st ++ dyn) = true ->
   filter is_static ps2 = st ->
   exists ps2', put_peripherals known auto (get_peripherals (st ++ dyn)) ps2 = (ps2', None)
                /\ get_peripherals ps2' = get_peripherals (st ++ dyn).
@@ -158,6 +169,7 @@ Example C20_nonvacuous_other :
   /\ (let known := String.eqb "mock.Driver" in
       let dyn := [ex_periph "pa"; ex_periph "pb"] in
       forallb (driver_known known) dyn = true /\ ids_distinct dyn = true
+      /\ forallb (fun e => is_none (invalid_peripheral e)) dyn = true
       /\ forallb (fun e => entry_eqb (peripheral_json (fun _ => "") e) e) dyn = true
       /\ put_peripherals known (fun _ => "") (get_peripherals dyn) [ex_periph "pc"] = (dyn, None)).
 Proof. vm_compute. repeat split. Qed.
